@@ -179,7 +179,7 @@ theorem stepOnce_fields (cfg : Px.Parser.Cfg) (p : Parser) (hp : p.state = .line
 /-- **request packet with arbitrary spelling**: request line and header block are consumed by the
     first two loop iterations; what remains is the body phase -/
 theorem parse_request_fields (cfg : Px.Parser.Cfg) {m u v : Bytes} {url : Px.Url.Url} (fs : List Field) (B : Bytes)
-    (hm : SP ∉ m) (hu : SP ∉ u) (hl : splitCRLF (m ++ SP :: (u ++ SP :: v)) = none)
+    (hmne : m ≠ []) (hm : SP ∉ m) (hu : SP ∉ u) (hl : splitCRLF (m ++ SP :: (u ++ SP :: v)) = none)
     (hurl : Px.Url.fromBytes cfg.allowedSchemes u = .ok url)
     (hfs : ∀ f ∈ fs, fieldOk f = true) (pkt : Bytes)
     (hpkt : pkt = m ++ SP :: (u ++ SP :: v) ++ CRLF ++ (renderFields fs ++ CRLF ++ B))
@@ -188,7 +188,7 @@ theorem parse_request_fields (cfg : Px.Parser.Cfg) {m u v : Bytes} {url : Px.Url
   have hne : (renderFields fs ++ CRLF ++ B).isEmpty = false := by simp [CRLF]
   have hlen : 0 < pkt.length := by
     simp only [hpkt, List.length_append, List.length_cons, CRLF]; omega
-  have hstep1 := Px.Codec.stepOnce_line_request cfg pkt.length (renderFields fs ++ CRLF ++ B) hm hu hl hurl
+  have hstep1 := Px.Codec.stepOnce_line_request cfg pkt.length (renderFields fs ++ CRLF ++ B) hmne hm hu hl hurl
   rw [← hpkt, hne] at hstep1
   have hpos : decide (pkt.length > 0) = true := by simpa using hlen
   rw [parse_eq, Px.Codec.bufBytes_init, List.nil_append, hpos]
